@@ -5,6 +5,8 @@ mod out;
 mod rng;
 mod c12;
 mod c14;
+mod c10;
+pub mod modgen;
 mod probes;
 
 use std::path::PathBuf;
@@ -19,11 +21,12 @@ pub struct Args {
 
 fn main() {
     let argv: Vec<String> = std::env::args().collect();
-    if argv.len() < 3 {
+    if argv.len() < 3 && !(argv.len() == 2 && argv[1] == "dump-stdlib") {
         eprintln!("usage: harness gen <Cxx> --seed S --n N --tier quick|thorough --out DIR");
         std::process::exit(2);
     }
     let cmd = argv[1].clone();
+    if cmd == "dump-stdlib" { print!("{}", modgen::dump_stdlib()); return; }
     if cmd == "probe" { if argv[2] == "handles" { probes::handles(); } else { probes::run(&argv[2]); } return; }
     let mut a = Args { prop: argv[2].clone(), seed: 1, n: 300, tier: "quick".into(), out: PathBuf::from("work") };
     let mut i = 3;
@@ -41,6 +44,7 @@ fn main() {
     match (cmd.as_str(), a.prop.as_str()) {
         ("gen", "C12") => c12::gen(&a),
         ("gen", "C14") => c14::gen(&a),
+        ("gen", "C10") => c10::gen(&a),
         _ => { eprintln!("unknown command/property"); std::process::exit(2); }
     }
 }
